@@ -538,7 +538,25 @@ func (w *wktWriter) gap() {
 		w.sb.WriteString("  ")
 	case 2:
 		w.sb.WriteString("\n\t")
+	case 3, 4, 5, 6:
+		w.sb.WriteString(oneSpace[w.st.Space-3])
 	}
+}
+
+// oneSpace: spellings in which every piece of whitespace is the same single character (tab, line
+// feed, carriage return alone) or the CR LF pair.
+var oneSpace = [4]string{"\t", "\n", "\r", "\r\n"}
+
+// OneSpaceWKTStyles are the spellings with a single kind of whitespace throughout, also before the
+// first word and after the last parenthesis.
+func OneSpaceWKTStyles() []WKTStyle {
+	var out []WKTStyle
+	for s := 3; s <= 6; s++ {
+		for _, mp := range []bool{false, true} {
+			out = append(out, WKTStyle{Space: s, MPParens: mp, Detached: true}, WKTStyle{Space: s, MPParens: mp, Case: 1})
+		}
+	}
+	return out
 }
 
 func (w *wktWriter) sep() {
@@ -549,6 +567,8 @@ func (w *wktWriter) sep() {
 		w.sb.WriteString("   ")
 	case 2:
 		w.sb.WriteString(" \r\n\t ")
+	case 3, 4, 5, 6:
+		w.sb.WriteString(oneSpace[w.st.Space-3])
 	}
 }
 
